@@ -458,6 +458,20 @@ def corpus_specs():
     return out
 
 
+CORPUS_FILE = "corpus/C20/trees.json"
+
+
+def load_corpus():
+    """minimised past failures (fixed defects, finding-like shapes): corpus/C20/trees.json, written from corpus_specs()"""
+    import json
+    import os
+
+    from vlib.core import VERIF
+
+    with open(os.path.join(VERIF, CORPUS_FILE)) as fh:
+        return json.load(fh)
+
+
 # --------------------------------------------------------------------------- the check
 def _work(spec):
     case = materialise(spec)
@@ -487,7 +501,7 @@ def run(chk):
     drv = leanio.Driver(chk, "drv_c20")
 
     rng = chk.rng("trees")
-    specs = corpus_specs()
+    specs = load_corpus()
     ncorpus = len(specs)
     specs += [gen_spec(rng, i) for i in range(chk.pick(220, 6000))]
     chk.units["U-readcards"] = {"corpus": ncorpus, "random": len(specs) - ncorpus}
@@ -495,6 +509,7 @@ def run(chk):
     results = pmap(_work, specs, workers=WORKERS, chunksize=4)
     cases = [c for c, _ in results]
     model = drv.batch([rl.model_case(c) for c in cases])
+    specflat = drv.batch([dict(rl.model_case(c), op="spec_flatten", depth=16) for c in cases])
 
     for i, (spec, (case, obs)) in enumerate(zip(specs, results)):
         ncards = sum(1 for _ in iter_cards(spec["top"]))
@@ -526,6 +541,17 @@ def run(chk):
                 mc, mo = _work(small)
                 chk.violation(sig, what, {"spec": small, "case": mc, "impl": {"syn": mo["syn"], "multi_err": mo["multi"].get("err"), "msg": mo["multi"].get("msg")}})
             continue
+        if specflat is not None:
+            # Spec.flatten (the right-hand side of C20_flatten) against the harness's own expectation
+            want_err = {"ok": None, "missing": "missing", "cycle": "cycle"}[case["kind"]]
+            got = specflat[i]
+            bad = got.get("err") != want_err
+            if not bad and want_err is None:
+                # the Spec's stream is in reading order; the expectation is block by block (Flat.block)
+                per_block = sorted([[x["block"], x["words"]] for x in got["inputs"]], key=lambda t: t[0])
+                bad = per_block != [[b, " ".join(ws).split()] for b, ws in case["expect"]["inputs"]]
+            if bad:
+                chk.broken_obligation("correspondence", "Spec.flatten vs the flattening expected by the generator", {"spec": got, "expect": case["expect"]["inputs"], "kind": case["kind"]}, {"spec": spec, "case": case})
         if model is not None:
             chk.traces_validated += 1
             if model[i] != obs["syn"]:
